@@ -160,11 +160,20 @@ def _evaluate_require(ast, file_path, package_lua, lua_path=None):
             # first require() the Lua interpreter encounters.)
 
             if not use_game_loop:
-                reqd_lua.root.stats[:] = [
+                # Remove the game loop function definitions, tokens and all.
+                # (Removing them from the AST alone leaves the AST writers out
+                # of step with the token stream unless they come last.)
+                loop_stats = [
                     s for s in reqd_lua.root.stats
-                    if not isinstance(s, parser.StatFunction) or
-                    s.funcname.namepath[0].value not in GAME_LOOP_FUNCTION_NAMES]  # noqa: E501
-                reqd_lua.reparse(writer_cls=lua.LuaASTEchoWriter)
+                    if isinstance(s, parser.StatFunction) and
+                    s.funcname.namepath[0].value in GAME_LOOP_FUNCTION_NAMES]
+                if loop_stats:
+                    kept_code = b''.join(
+                        t.code for (i, t) in enumerate(reqd_lua.tokens)
+                        if not any(s.start_pos <= i < s.end_pos
+                                   for s in loop_stats))
+                    reqd_lua = lua.Lua.from_lines(
+                        [kept_code], version=game.DEFAULT_VERSION)
 
             package_lua[require_path] = reqd_lua
             _evaluate_require(reqd_lua, reqd_filepath,
